@@ -8,7 +8,7 @@ import tempfile
 
 from hypothesis import given, strategies as st
 
-from harness import core, backends
+from harness import core, backends, ir
 from harness.decoders import qapfiles
 
 RULE = ("one fresh interpreter per generated program on the real qaptools backend (external binaries replaced by failing "
@@ -26,7 +26,7 @@ RULE = ("one fresh interpreter per generated program on the real qaptools backen
         "of equal length = #LinComb arguments + #results of that call with pairwise equal (mod p) wire values. "
         "Non-trivial = >= 1 sub-circuit call with >= 1 constraint inside and >= 1 constraint traced after the last public "
         "value; distinct by program digest.")
-RULE += " Extensions (seeded rounds 10-15): boolean coefficients, the proving step run in the middle of the script, sub-circuit calls under a caller's guard, calls that fail half-way and are repeated, the schedule written by the splitting step."
+RULE += " Extensions (seeded rounds 10-15): boolean coefficients, the proving step run in the middle of the script, sub-circuit calls under a caller's guard, calls that fail half-way and are repeated, the schedule written by the splitting step. Table-boundary constants (1000, 4096, 5000, 65536 ...) among the generated scalars."
 
 
 P = backends.FIELDS["qaptools"]
@@ -78,7 +78,9 @@ def draw_program(draw):
                 body.append(["addc", draw(st.integers(0, nloc - 1)), draw(st.integers(-5, 5))])
                 nloc += 1
             elif k == 4:
-                body.append(["mulc", draw(st.integers(0, nloc - 1)), draw(st.sampled_from([-2, -1, 0, 2, 3, P - 1, P, P + 2]))])
+                # (round numbers - 1000, 4096, 5000, 65536 ... - are where tables of pre-rendered coefficients would end)
+                body.append(["mulc", draw(st.integers(0, nloc - 1)), draw(st.one_of(st.sampled_from([-2, -1, 0, 2, 3, P - 1, P, P + 2]), st.sampled_from([-2, -1, 0, 2, 3, P - 1, P, P + 2]),
+                                                                                  st.sampled_from(ir.MAGIC).flatmap(lambda v: st.sampled_from([v, -v]))))])
                 nloc += 1
             elif fi > 0 and k >= 5:
                 inner = draw(st.integers(0, fi - 1))
